@@ -4,6 +4,7 @@ import Driver.Types
 import Driver.Ext
 import Driver.C20
 import Driver.Conv
+import Driver.View
 import MdspanVerif.Model.ValidB
 open Mdspan Drv
 
@@ -16,6 +17,7 @@ def step (line : String) : String :=
   | "extconv" :: t :: u :: rest => extconvLine t u rest
   | "exteq" :: t :: u :: rest => exteqLine t u rest
   | "c20" :: kind :: t :: rest => c20Line kind t rest
+  | "view" :: kind :: ty :: rest => viewLine kind ty rest
   | "conv" :: kind :: _ :: rest => convLine kind rest
   | "mapeq" :: kind :: _ :: rest => mapeqLine kind rest
   | "dot" :: rest =>
